@@ -4,8 +4,8 @@ package main
 
 import (
 	"fmt"
-	"math/big"
 	"go/types"
+	"math/big"
 	"strings"
 
 	"golang.org/x/tools/go/ssa"
@@ -150,6 +150,24 @@ func (e *Exec) vndCall(th *Thread, fn *ssa.Function, a []Value) Value {
 		return nil
 	case "Symbolic":
 		return c.True
+	case "BLSInvalidKey":
+		bs, ok := e.concreteBytes(SliceV(sliceArg(a[0])))
+		if !ok {
+			panic(pathAbort{"error", "vnd.BLSInvalidKey needs concrete bytes"})
+		}
+		if e.blsInvalid == nil {
+			e.blsInvalid = map[string]bool{}
+		}
+		e.blsInvalid[string(bs)] = true
+		return nil
+	case "BLSVerifyCalls":
+		return e.intConst(64, int64(len(e.blsVerifies)))
+	case "BLSVerifyResult":
+		i := e.concreteInt(a[0], "BLSVerifyResult index")
+		if i < 0 || i >= len(e.blsVerifies) {
+			return c.False
+		}
+		return e.blsVerifies[i]
 	case "Hash64":
 		// uninterpreted, functionally consistent hash of 64-bit words
 		args := sliceArg(a[1])
